@@ -24,6 +24,8 @@ fitting succeeds for every proper subset (MLE):      fit_table_complete, fit_key
   keywords accepted by scipy's grammar, pin exactly
   the slots the parameter map assigns to the subset,
   at the mapped values
+a family without shape parameters (ScipyDistribution  noshape_scipy_shapes, noshape_fit_pins (f_loc ↦ slot `loc` only,
+  subclass of gumbel_r declared via `scipy_dist`)      f_scale ↦ slot `scale` only, in scipy's grammar for NO shapes)
 still that value after fitting                       fixed_survives_fit_partial (+ simpInv_sound): proven under the
                                                        CONTRACT "fit returns a pinned slot unchanged" and over ℝ
                                                        (log (exp v) = v, 1/(1/v) = v). FULL STATEMENT (scipy honours
@@ -49,7 +51,7 @@ open VirVerif VirVerif.Generated
 theorem ctor_table_complete : ctorTableComplete families ctorRows = true := by decide +kernel
 
 /-- for every family, every subset of fixed parameters and every calling style (values before
-or after the `f_` keywords, positional values, no values at all): a fixed parameter *is* the fixed
+or after the `f_` keywords, positional values, every free parameter explicitly `f_<q>=None`, no values at all): a fixed parameter *is* the fixed
 value and is remembered as fixed, a free one is the given value / a literal default -/
 theorem ctor_fixed_wins : ctorRows.all ctorRowOk = true := by decide +kernel
 
@@ -70,6 +72,22 @@ to `S` (and the constant slots) are pinned, at the mapped values, and (under the
 fixed parameters come back as their fixed values while the free ones depend on the estimate -/
 theorem fit_keywords_accepted_and_targeted :
     fitTableOk families scipyShapes baseMaps fitRows = true := by decide +kernel
+
+/-- scipy reports no shape parameter for the distribution behind family 9 (the Gumbel subclass declared by
+`scipy_dist = scipy.stats.gumbel_r`): its slots are `(loc, scale)` only -/
+theorem noshape_scipy_shapes :
+    (families[9]?.map (·.params)) = some ["loc", "scale"] ∧ (baseMaps[9]?.map (·.1)) = some "gumbel_r" ∧
+    shapesOf scipyShapes "gumbel_r" = some [] := by decide +kernel
+
+/-- what `_fit_mle` of the family without shapes pins, read with scipy's grammar for an EMPTY shape list
+(`f0` is not a keyword there): nothing / slot 0 = `loc` at `f_loc` / slot 1 = `scale` at `f_scale`; with both
+fixed scipy's `fit` is not reached (nothing to estimate) -/
+theorem noshape_fit_pins :
+    ((fitRows.filter fun r => r.fam == 9).map fun r => (r.fixed, match r.outcome with
+        | .called d _ kws => some (d, fixedValue [] kws 0, fixedValue [] kws 1)
+        | _ => none)) =
+    [([], some ("gumbel_r", none, none)), ([0], some ("gumbel_r", some (.farg 0), none)),
+     ([1], some ("gumbel_r", none, some (.farg 1))), ([0, 1], none)] := by decide +kernel
 
 theorem ew_lsq_supported_sets : lsqRows.all (lsqRowOk families) = true := by decide +kernel
 
@@ -168,6 +186,14 @@ example : fitTarget ["a", "c"] "f0" = some 0 ∧ fitTarget ["a", "c"] "f1" = som
 /-- a generated row with a proper subset fixed that passes the whole obligation -/
 example : ∃ r ∈ fitRows, r.fam = 5 ∧ r.fixed = [0, 2] ∧
     fitRowOk scipyShapes baseMaps[r.fam]? r = true := by decide +kernel
+example : ∃ r ∈ fitRows, r.fam = 9 ∧ r.fixed = [1] ∧
+    fitRowOk scipyShapes baseMaps[r.fam]? r = true := by decide +kernel
+example : fitTarget [] "floc" = some 0 ∧ fitTarget [] "fscale" = some 1 ∧ fitTarget [] "floc0" = none := by decide
+example : ∃ r ∈ ctorRows, r.fam = 9 ∧ r.fixed = [0] ∧ r.given = [] ∧
+    r.result = some ([.farg 0, .int 1], [some (.farg 0), none]) := by decide +kernel
+/-- calling style 3 (`loc=…, scale=…, f_loc=…, f_scale=None`): the free parameter keeps its value, unmarked -/
+example : ∃ r ∈ ctorRows, r.fam = 9 ∧ r.fixed = [0] ∧ r.order = 3 ∧
+    r.result = some ([.farg 0, .arg 1], [some (.farg 0), none]) := by decide +kernel
 example : ∃ r ∈ ctorRows, r.fam = 6 ∧ r.fixed = [0] ∧ r.order = 1 ∧ ctorRowOk r = true := by
   decide +kernel
 example : ∃ r ∈ lsqRows, r.fam = 4 ∧ r.fixed = [2] ∧ r.ok = true ∧ r.kept = true := by decide +kernel
